@@ -65,6 +65,24 @@ def oracle(script: dict, run: Any) -> List[Violation]:
         if e[3] == "start" and shutdown_at is not None and e[0] > shutdown_at[0]:
             out.append(Violation("C18/start-after-shutdown", f"a process was started at tick {e[1]} after the shutdown action was handled"))
             return out
+    # ---- every dequeued reload-all request is expanded into one per-slot reload action for every slot
+    for i, e in enumerate(ev):
+        if e[3] == "get" and e[4]["item"]["type"] == "ReloadAllAction":
+            if budget_hit is not None and e[0] > budget_hit[0]:
+                continue
+            slots = []
+            ended = False
+            for x in ev[i + 1:]:
+                if x[3] == "get":
+                    break
+                if x[3] in ("return", "forced", "raise"):
+                    ended = True
+                    break
+                if x[3] == "put" and x[4]["item"]["type"] == "ReloadOneAction" and x[4]["item"]["reload_all"] and not x[4]["in_handler"]:
+                    slots.append(x[4]["item"]["slot"])
+            if not ended and sorted(slots) != list(range(script["workers"])):
+                out.append(Violation("C18/reload-all-not-expanded", f"a reload-all request dequeued at tick {e[1]} produced per-slot reloads for slots {slots}, expected every slot 0..{script['workers'] - 1}"))
+                return out
     ret = next((e for e in ev if e[3] == "return"), None)
     # ---- exit status
     if ret is not None and ret[4]["value"] == -1:
